@@ -233,7 +233,10 @@ VecPatterns(hrp, plen) ==
 
 Vec32Expect(hrp, ver, prog, anchor) ==
     LET cg  == ConstFor(ver)
-        abs(ck) == BechStr(hrp, "none", "lower", ck, ver, NGroups(Len(prog)), TRUE, anchor)
+        \* a bech32 string has 90 characters at most
+        long == Len(HrpCodes(hrp)) + 2 + NGroups(Len(prog)) + 6 > 90
+        abs(ck) == IF long THEN CanonBech(BechStr(hrp, "toolong", "lower", ck, ver, 0, TRUE, FALSE))
+                   ELSE BechStr(hrp, "none", "lower", ck, ver, NGroups(Len(prog)), TRUE, anchor)
         ckg == IF ver = 0 THEN "b32" ELSE "b32m"
         ckw == IF ver = 0 THEN "b32m" ELSE "b32"
         dec(a) == IF hrp \in RegHrps THEN BechExpect(a) ELSE [d |-> Reject, impl |-> Reject]
@@ -341,11 +344,19 @@ AddrExpect(kind, n) ==
           \* the address the script maps back to
           back |-> IF kind = "p2pk-h" THEN "p2pk-u" ELSE kind ]
 
+\* characters of a segwit address string: prefix, separator, version symbol,
+\* program symbols, six checksum symbols
+BechChars(n, plen) == Len(n.hrpcodes) + 2 + NGroups(plen) + 6
+
 AddrLaws ==
     case.kind = "addr" =>
         LET n == NetOf(case.net)
             k == case.akind
-        IN  \* encode / decode round trip on its own network, except where the
+        IN  \* the prefix length classes meet the length of a hex-encoded public key
+            /\ (case.net = "hrplen6" /\ k \in {"p2wsh", "p2tr"} => BechChars(n, 32) = 66)
+            /\ (case.net = "hrplen26" /\ k = "p2wpkh" => BechChars(n, 20) = 66)
+            /\ (case.net = "hrplen54" /\ k = "p2a" => BechChars(n, 2) = 66)
+            \* encode / decode round trip on its own network, except where the
             \* network cannot be decoded at all
             /\ (expect.decision.accept <=>
                     IF expect.str.form = "bech" THEN n.hrp \in RegHrps ELSE n.pkh # n.sh)
@@ -728,14 +739,17 @@ PickVec58 ==
 
 PickEdit ==
     /\ InGroup("edit")
-    /\ \E nn \in NetNames \ {"unreg", "collide", "hrpdigit", "hrpone", "hrpupper"}, k \in 1..4, ty \in EditTypes : \E rg \in EditRegions(case.g) :
+    /\ \E nn \in NetNames \ {"unreg", "collide", "hrpdigit", "hrpone", "hrpupper", "hrplen6", "hrplen26", "hrplen54"}, k \in 1..4, ty \in EditTypes : \E rg \in EditRegions(case.g) :
           /\ case' = [kind |-> "edit", base |-> case.g, net |-> nn, k |-> k, type |-> ty, region |-> rg]
           /\ expect' = EditExpect(case.g, NetOf(nn), k, ty, rg)
 
 PickAddr ==
     /\ InGroup("addr")
     /\ \E k \in AddrKinds :
-          case' = [kind |-> "addr", akind |-> k, net |-> case.g] /\ expect' = AddrExpect(k, NetOf(case.g))
+          \* no address where the string would be longer than a bech32 string can be
+          /\ (k \in {"p2wpkh", "p2wsh", "p2tr", "p2a"} =>
+                 BechChars(NetOf(case.g), CASE k = "p2wpkh" -> 20 [] k = "p2a" -> 2 [] OTHER -> 32) <= 90)
+          /\ case' = [kind |-> "addr", akind |-> k, net |-> case.g] /\ expect' = AddrExpect(k, NetOf(case.g))
 
 PickScript ==
     /\ InGroup("script")
